@@ -9,6 +9,7 @@ import (
 	"errors"
 	"fmt"
 	"io"
+	"sync"
 	"time"
 
 	"github.com/multiformats/go-multiaddr"
@@ -60,7 +61,12 @@ type Epoch struct {
 	blocktimeindex              *blocktimeindex.Index
 	onClose                     []func() error
 	allCache                    *hugecache.Cache
+	// carMu makes Close wait for the reads of the local CAR file that are in flight (see closeSafeReaderAt).
+	carMu  sync.RWMutex
+	closed bool
 }
+
+var errEpochClosed = errors.New("the epoch has been closed")
 
 func (r *Epoch) GetCache() *hugecache.Cache {
 	return r.allCache
@@ -93,6 +99,9 @@ func (e *Epoch) IsCarMode() bool {
 }
 
 func (e *Epoch) Close() error {
+	e.carMu.Lock()
+	defer e.carMu.Unlock()
+	e.closed = true
 	multiErr := make([]error, 0)
 	for _, fn := range e.onClose {
 		if err := fn(); err != nil {
@@ -691,6 +700,11 @@ func (s *Epoch) GetNodeByCid(ctx context.Context, wantedCid cid.Cid) ([]byte, er
 }
 
 func (s *Epoch) ReadAtFromCar(ctx context.Context, offset uint64, length uint64) ([]byte, error) {
+	s.carMu.RLock()
+	defer s.carMu.RUnlock()
+	if s.closed {
+		return nil, errEpochClosed
+	}
 	if s.localCarReader == nil {
 		// try remote reader
 		if s.remoteCarReader == nil {
@@ -721,6 +735,11 @@ func (s *Epoch) GetNodeByOffsetAndSize(ctx context.Context, wantedCid *cid.Cid, 
 	}
 	offset := offsetAndSize.Offset
 	length := offsetAndSize.Size
+	s.carMu.RLock()
+	defer s.carMu.RUnlock()
+	if s.closed {
+		return nil, errEpochClosed
+	}
 	if s.localCarReader == nil {
 		// try remote reader
 		if s.remoteCarReader == nil {
@@ -740,6 +759,11 @@ func (s *Epoch) GetNodeByOffsetAndSize(ctx context.Context, wantedCid *cid.Cid, 
 }
 
 func (s *Epoch) getNodeSize(ctx context.Context, offset uint64) (uint64, error) {
+	s.carMu.RLock()
+	defer s.carMu.RUnlock()
+	if s.closed {
+		return 0, errEpochClosed
+	}
 	if s.localCarReader == nil {
 		// try remote reader
 		if s.remoteCarReader == nil {
